@@ -54,6 +54,11 @@ def run(ctx):
     for name, obj, g in named_constants(cirq, mods):
         rows.append(('named:' + name, g, obj))
     gate_stream(ctx, cirq, mods, rows)
+    # channels of the library: Kraus / mixture / superoperator vs the documented Kraus operators (shared with C09)
+    from . import c09
+    checks = []
+    c09.channel_stream(ctx, cirq, checks, 1 if ctx.tier == 'quick' else 8)
+    c09.evaluate(ctx, checks)
 
 
 def impl_unitary(cirq, mods, g, obj):
